@@ -21,6 +21,7 @@ BUILTINS = {
     "len", "range", "sorted", "set", "list", "tuple", "sum", "min", "max", "abs", "int", "float", "round",
     "isinstance", "enumerate", "zip", "reversed", "any", "all", "dict", "str", "print", "oset", "bool",
     "ceil", "floor", "next", "iter", "frozenset", "type", "id", "repr", "getattr", "hasattr", "fzs",
+    "deepcopy", "super",
 }
 
 
@@ -474,16 +475,45 @@ def call_builtin(ex, name, args, kw, node):
         raise Unsupported("dict(...) with arguments")
     if name == "str":
         return StrV("<str()>")
-    if name in ("copy.deepcopy", "copy.copy"):
+    if name in ("copy.deepcopy", "copy.copy", "deepcopy"):
         (x,) = args
-        if isinstance(x, (SeqV, SetV, MapV, Tup)) or is_z3(x):
+        if isinstance(x, (SeqV, SetV, MapV, Tup)) and not isinstance(getattr(x, "shape", None), V.ObjShape) or is_z3(x):
             return x  # immutable value model
-        raise Unsupported("deepcopy of an object needs a contract")
+        if isinstance(x, OptV):
+            x = x.val
+        if isinstance(x, ObjV):
+            c = ex.prop.lookup_method(x.cls, "__deepcopy__", ex.relfile)
+            if c is not None:
+                return ex.call_contract(c, [x], {}, node)
+        raise Unsupported("deepcopy of an object needs a contract (__deepcopy__ of its class)")
+    if name == "hasattr":
+        x, a = args
+        if isinstance(x, ObjV) and isinstance(a, StrV):
+            if a.s in ex.prop.fields:
+                return z3.BoolVal(ex.prop.class_has_field(x.cls, a.s))
+            return z3.BoolVal(False)
+        if isinstance(a, StrV) and not isinstance(x, ObjV):
+            return z3.BoolVal(False)
+        raise Unsupported("hasattr with a computed name")
+    if name == "getattr":
+        x, a = args[0], args[1]
+        if isinstance(x, ObjV) and isinstance(a, StrV) and a.s in ex.prop.fields:
+            return ex.read_field(x, a.s)
+        raise Unsupported("getattr of an undeclared field")
+    if name == "super":
+        return SuperV(ex.env.get("self"))
     raise Unsupported(f"builtin {name}")
 
 
 class EmptySet:
     pass
+
+
+class SuperV:
+    """`super()`: method calls on it go to the contract named `super.<method>`."""
+
+    def __init__(self, obj):
+        self.obj = obj
 
 
 def sorted_seq(ex, q):
@@ -539,6 +569,11 @@ def call_builtin_method(ex, recv, name, args, kw, node):
                 # with a pattern so that it is used):  y in xs+[v]  <->  y in xs or y == v
                 y = z3.Const(fresh_name("ay"), terms[0].sort())
                 ex.assume(V.qforall([y], ex.seq_mem(new, y) == z3.Or(ex.seq_mem(recv, y), y == terms[0]), patterns=[ex.seq_mem(new, y)]))
+                if isinstance(recv.shape, V.ObjShape) and "name" in ex.prop.fields and (getattr(recv, "by_name", False) or recv.shape.cls in ex.prop.by_name_lists):
+                    # by-name lookup after append (consequence of the definition, stated with a pattern)
+                    ky = z3.Const(fresh_name("ak"), V.Elem)
+                    nm = z3.Select(ex.heap_arrays("name")[0], terms[0])
+                    ex.assume(V.qforall([ky], ex.by_name_exists(new, ky) == z3.Or(ex.by_name_exists(recv, ky), nm == ky), patterns=[ex.by_name_exists(new, ky)]))
             return rebind(new)
         if name == "copy":
             return recv
